@@ -433,6 +433,7 @@ func runC01(c *Ctx) {
 	checkPoolDiscipline(c, "R8")
 	// R9: the File offset after a transfer (shared with C12.R5): the next Read/Write starts where this one ended
 	checkOffsetStores(c, "R9", nil)
+	checkWriteToEndsAtEOF(c, "R10")
 }
 
 // checkPoolDiscipline: chunks travel between the goroutines of a transfer in pooled buffers.  pool.Put(b) makes b
@@ -881,4 +882,44 @@ func runC01Server(c *Ctx) {
 		})
 		c.check(good, "R5", "WRITE decode Data = b[:Length]", p.Pos(u.Pos()), "payload is the declared number of bytes", "the decoded WRITE payload is not b[:Length]")
 	}
+}
+
+// checkWriteToEndsAtEOF (C01.R10): WriteTo moves "whatever the served file contains": the size from (f)stat is only a
+// hint for the number of workers, because it can be stale or simply wrong (procfs, a name re-used since the open).
+// A nil error is therefore returned only when a read reported end of file (the reducer's `packet.err == io.EOF`), or
+// by the sequential variant, which reads until EOF itself — never on the strength of the size alone.
+func checkWriteToEndsAtEOF(c *Ctx, rule string) {
+	p := c.P
+	fn := p.Func("(*File).WriteTo")
+	if fn == nil {
+		c.missing(rule, "(*File).WriteTo")
+		return
+	}
+	n := 0
+	bad := ""
+	for _, rl := range returnLeaves(fn, 1) {
+		if !isNilConst(rl.v) {
+			continue
+		}
+		n++
+		atEOF := false
+		for cv, truth := range edgeConds(rl.block, rl.pred) {
+			b, ok := cv.(*ssa.BinOp)
+			if !ok || !((b.Op == token.EQL && truth) || (b.Op == token.NEQ && !truth)) {
+				continue
+			}
+			for _, side := range []ssa.Value{b.X, b.Y} {
+				for _, l := range leavesOf(side) {
+					if l.Kind == leafGlobal && l.V.Name() == "EOF" {
+						atEOF = true
+					}
+				}
+			}
+		}
+		if !atEOF {
+			bad = p.Pos(rl.block.Instrs[len(rl.block.Instrs)-1].Pos())
+		}
+	}
+	c.check(bad == "" && n >= 1, rule, "WriteTo reports success only after a read reported EOF", p.Pos(fn.Pos()), fmt.Sprintf("%d nil results, each under packet.err == io.EOF", n),
+		"WriteTo can return a nil error (at "+bad+") without any read having reported end of file, e.g. because the stat size says so: a file whose attributes are stale or synthetic (procfs, a replaced name) is reported as copied although none or only part of it was")
 }
